@@ -17,19 +17,23 @@ Fixpoint expand (c : call) : list flat :=
 
 Definition expand_calls (l : list call) : list flat := flat_map expand l.
 
-(** [Call.__eq__]: task, args and kwargs compared literally. *)
-Definition call_eqb (a b : flat) : bool :=
-  Nat.eqb (f_task a) (f_task b) && list_eqb py_eqb (f_args a) (f_args b) &&
+(** [Call.__eq__]: task, args and kwargs compared literally, with Python's
+    [==].  [Task.__eq__] is *not* identity: two task objects are equal when
+    they have the same name and the same body or the same code object --
+    tasks made by one factory function share both and differ only in their
+    closure.  [eqk] maps a task to its equality class. *)
+Definition call_eqb (eqk : nat -> nat) (a b : flat) : bool :=
+  Nat.eqb (eqk (f_task a)) (eqk (f_task b)) && list_eqb py_eqb (f_args a) (f_args b) &&
   kw_eqb (f_kw a) (f_kw b).
 
 (** [dedupe]: keep a call unless an equal one was kept already. *)
-Fixpoint dedupe_from (kept : list flat) (l : list flat) : list flat :=
+Fixpoint dedupe_from (eqk : nat -> nat) (kept : list flat) (l : list flat) : list flat :=
   match l with
   | [] => kept
-  | c :: l' => if existsb (fun d => call_eqb d c) kept then dedupe_from kept l'
-               else dedupe_from (kept ++ [c]) l'
+  | c :: l' => if existsb (fun d => call_eqb eqk d c) kept then dedupe_from eqk kept l'
+               else dedupe_from eqk (kept ++ [c]) l'
   end.
-Definition dedupe (l : list flat) : list flat := dedupe_from [] l.
+Definition dedupe (eqk : nat -> nat) (l : list flat) : list flat := dedupe_from eqk [] l.
 
 (** [normalize]; without requests the collection's default task, bare. *)
 Definition normalize (reqs : list request) (dflt : option call) : list call :=
@@ -66,10 +70,10 @@ Fixpoint results_from (i : nat) (log : list entry) (acc : list (nat * nat)) : li
   | e :: log' => results_from (S i) log' (nset (fst e) i acc)
   end.
 
-Definition execute (sig : nat -> params) (reqs : list request) (dflt : option call)
-           (dedupe_on : bool) : result (list entry * list (nat * nat)) :=
+Definition execute (sig : nat -> params) (eqk : nat -> nat) (reqs : list request)
+           (dflt : option call) (dedupe_on : bool) : result (list entry * list (nat * nat)) :=
   let expanded := expand_calls (normalize reqs dflt) in
-  let final := if dedupe_on then dedupe expanded else expanded in
+  let final := if dedupe_on then dedupe eqk expanded else expanded in
   match run_calls sig final with
   | Ok log => Ok (log, results_from 0 log [])
   | Err e => Err e
